@@ -166,8 +166,19 @@ func readOnlyCallee(cc *ssa.CallCommon) bool {
 		return false
 	}
 	switch fn.Pkg().Path() {
-	case "fmt", "errors", "strings":
+	case "fmt", "errors", "strings", "slices", "maps", "cmp", "unicode", "unicode/utf8", "strconv":
+		// slices/maps: only the functions that do not write their operand
+		if fn.Pkg().Path() == "slices" || fn.Pkg().Path() == "maps" {
+			switch fn.Name() {
+			case "Contains", "ContainsFunc", "Index", "IndexFunc", "Equal", "EqualFunc", "Clone", "Keys", "Values", "Sorted", "Collect", "All", "BinarySearch", "BinarySearchFunc", "Max", "Min", "IsSorted", "IsSortedFunc":
+				return true
+			}
+			return false
+		}
 		return true
+	case "regexp":
+		// a compiled expression is immutable and safe for concurrent use; only Longest changes it
+		return fn.Name() != "Longest"
 	}
 	return false
 }
